@@ -253,6 +253,9 @@ def scan_assumption_keywords():
 DEPENDS = {
     'C03': [('C04', {})],                              # actions must leave the receive buffer alone (frame clause)
     'C06': [('C02', {'only': ['PresentationDataValueItem', 'PDataTfPDU']})],   # the fragments' wire form
+    'C07': [('C06', {})],                              # "a message fragmented as in C06": the sender's side of the contract
+    'C14': [('C04', {}),                               # RJ / ABORT / RELEASE PDUs reach the user as the table says
+            ('C02', {'only': ['AAssociateRjPDU', 'AAbortPDU', 'AReleaseRqPDU', 'AReleaseRpPDU']})],   # and travel intact
     'C15': [('C06', {}), ('C07', {})],                 # transport of the request / response: both directions
     'C16': [('C06', {}), ('C07', {})],
     'C19': [('C15', {})],                              # one sub-operation = one C-STORE request (storage_scu)
